@@ -127,13 +127,13 @@ func concurrentCases(c *harness.C) []harness.Case {
 	return []harness.Case{
 		concurrentCase("eddsa", func() ([]capMsg, error) {
 			parties := ids(2)
-			shares, errs, caps := runAdapters("eddsa", parties, 1, nil, func(id uint16, a adapter, ctx context.Context) ([]byte, error) { return a.KeyGen(ctx) }, "keygen", 120*time.Second)
+			shares, errs, caps := runAdapters("eddsa", parties, 1, nil, func(id uint16, a adapter, ctx context.Context) ([]byte, error) { return a.KeyGen(ctx) }, "keygen", 900*time.Second)
 			for _, e := range errs {
 				if e != nil {
 					return nil, e
 				}
 			}
-			_, _, scaps := runAdapters("eddsa", parties, 1, shares, func(id uint16, a adapter, ctx context.Context) ([]byte, error) { return a.Sign(ctx, digestAlphabet[0]) }, "signing", 120*time.Second)
+			_, _, scaps := runAdapters("eddsa", parties, 1, shares, func(id uint16, a adapter, ctx context.Context) ([]byte, error) { return a.Sign(ctx, digestAlphabet[0]) }, "signing", 1800*time.Second)
 			return append(caps, scaps...), nil
 		}),
 		concurrentCase("ecdsa", func() ([]capMsg, error) {
